@@ -21,6 +21,7 @@ ASSUMPTIONS = ['ref_root_attach in this file is the set-based reading of the '
                'when the lowest common dominator is the root']
 WATCHDOG = {'quick': 600, 'thorough': 3600}
 LONG_SENTENCES = 3      # floor for the stratum the runner adds (gen.maybe_long)
+PIPELINE_CASES = {'quick': 500, 'thorough': 20000}   # vt/pipeline.py
 MIN = {'quick': {'distinct': 400, 'hooks': {'transform.root_attach': 2000},
                  'strata': {'second call after in-place detachment': 300,
                             'moved>=2': 100, 'moved constituent': 50,
